@@ -224,4 +224,4 @@ class IncrementalKSTest(BaseStatisticalTest):
                 )
         except (FloatingPointError, OverflowError):
             return np.nan
-        return p_value
+        return np.clip(p_value, 0.0, 1.0)
